@@ -26,6 +26,7 @@ import (
 	"net"
 	"strings"
 	"sync"
+	"sync/atomic"
 	"testing"
 	"time"
 
@@ -399,10 +400,29 @@ func vfMsgSize(r *vfRand, maxP, cap int, allowOver bool) int {
 	}
 }
 
+// vfMsgTxt is the short form of a message used in the failing-input trace of the oracle
+func vfMsgTxt(m []byte) string {
+	switch {
+	case m == nil:
+		return "nil"
+	case len(m) == 0:
+		return "[]"
+	case len(m) <= 4:
+		return vfHex(m)
+	}
+	return fmt.Sprintf("#%d", len(m))
+}
+
 func vfMConnCase(o *vfOut, r *vfRand) {
 	const model = "mconn"
 	maxP := r.Pick(1, 2, 3, 7, 16, 100, 1024)
 	nch := 1 + r.Intn(4)
+	// 1 case in 3 is about empty messages: at least two channels, half of the messages empty
+	// (nil or []byte{}), bursts of several empty messages in a row, short other messages
+	emptyHeavy := r.Chance(33)
+	if emptyHeavy && nch < 2 {
+		nch = 2 + r.Intn(3)
+	}
 	idPool := []byte{0, 1, 2, 0x20, 0x30, 0x40, 0xff}
 	for i := range idPool {
 		j := i + r.Intn(len(idPool)-i)
@@ -431,19 +451,28 @@ func vfMConnCase(o *vfOut, r *vfRand) {
 	enq := map[byte][][]byte{}
 	next := map[byte]int{} // index of the next message expected on the channel
 	dcount := map[byte]int{}
-	lostEmpty, delivered, stopped, oversize := 0, 0, false, false
+	delivered, stopped, oversize := 0, false, false
 	allowOver := r.Chance(30)
+	// the failing input of a violation: every enqueue (channel:message) and every pick, in order
+	var trace []string
+	input := func() string {
+		t := trace
+		if len(t) > 120 {
+			t = append(append([]string{}, t[:60]...), append([]string{"…"}, t[len(t)-59:]...)...)
+		}
+		return key + " ops=[" + strings.Join(t, " ") + "]"
+	}
 
 	sendOne := func() bool { // false when the sender has nothing to send
 		var exhausted bool
-		if vfGuard(o, "panic-sendPacketMsg", func() string { return key }, func() { exhausted = snd.sendPacketMsg() }) {
+		if vfGuard(o, "panic-sendPacketMsg", func() string { return input() }, func() { exhausted = snd.sendPacketMsg() }) {
 			stopped = true
 			return false
 		}
 		snd.bufConnWriter.Flush()
 		if len(sw.w.b) == 0 {
 			if !exhausted {
-				o.Viol("mconn-no-packet-but-not-exhausted", key)
+				o.Viol("mconn-no-packet-but-not-exhausted", input())
 			}
 			o.Op(model, "idle", "idle")
 			return false
@@ -461,13 +490,14 @@ func vfMConnCase(o *vfOut, r *vfRand) {
 			return false
 		}
 		id := byte(pm.ChannelID)
+		trace = append(trace, fmt.Sprintf("pick%d", id))
 		if len(pm.Data) > maxP {
 			o.Viol("mconn-payload-above-maximum", fmt.Sprintf("%s payload=%d max=%d", key, len(pm.Data), maxP))
 		}
 		var msg []byte
 		var err error
 		rch := rcv.channelsIdx[id]
-		if vfGuard(o, "panic-recvPacketMsg", func() string { return key }, func() { msg, err = rch.recvPacketMsg(*pm) }) {
+		if vfGuard(o, "panic-recvPacketMsg", func() string { return input() }, func() { msg, err = rch.recvPacketMsg(*pm) }) {
 			stopped = true
 			return false
 		}
@@ -483,16 +513,23 @@ func vfMConnCase(o *vfOut, r *vfRand) {
 		}
 		o.Op(model, fmt.Sprintf("send %d", id), fmt.Sprintf("pkt ch=%d eof=%d len=%d sum=%d -> %s", id, eof, len(pm.Data), vfSum(pm.Data), res))
 		o.Stat("packets")
-		// ---- oracle: per channel, exactly the sent messages, in order, each once
+		// ---- oracle: per channel, exactly the sent messages (the empty ones included), in
+		// order, each once.  The message in flight on a channel is the oldest undelivered one.
 		cp := rch.desc.RecvMessageCapacity
 		if err != nil {
 			stopped = true
 			p := next[id]
-			for p < len(enq[id]) && len(enq[id][p]) == 0 {
-				p++
+			q := p
+			for q < len(enq[id]) && len(enq[id][q]) == 0 {
+				q++
 			}
-			if p >= len(enq[id]) || len(enq[id][p]) <= cp {
-				o.Viol("mconn-spurious-capacity-error", fmt.Sprintf("%s ch=%d next message fits (cap %d): %v", key, id, cp, err))
+			if q > p && q < len(enq[id]) && len(enq[id][q]) > cp {
+				// the refused message is a later, oversized one: the empty messages before it vanished
+				o.Viol("mconn-empty-message-lost", fmt.Sprintf("%s: ch=%d message #%d (%d bytes, cap %d) reached the receiver while the %d zero-length message(s) #%d..#%d accepted before it on that channel were never transmitted",
+					input(), id, q, len(enq[id][q]), cp, q-p, p, q-1))
+				oversize = true
+			} else if p >= len(enq[id]) || len(enq[id][p]) <= cp {
+				o.Viol("mconn-spurious-capacity-error", fmt.Sprintf("%s ch=%d next message fits (cap %d): %v", input(), id, cp, err))
 			} else {
 				oversize = true
 				o.Stat("mconn.oversize-refused")
@@ -506,40 +543,124 @@ func vfMConnCase(o *vfOut, r *vfRand) {
 				o.Viol("mconn-oversize-delivered", fmt.Sprintf("%s ch=%d len=%d cap=%d", key, id, len(msg), cp))
 			}
 			p := next[id]
-			for len(msg) != 0 && p < len(enq[id]) && len(enq[id][p]) == 0 {
-				p++
-				lostEmpty++
-			}
-			if p >= len(enq[id]) || !bytes.Equal(enq[id][p], msg) {
-				o.Viol("mconn-delivery-mismatch", fmt.Sprintf("%s ch=%d delivered %d bytes, not the next message sent (#%d)", key, id, len(msg), p))
+			if p < len(enq[id]) && bytes.Equal(enq[id][p], msg) {
+				if len(msg) == 0 {
+					o.Stat("mconn.empty-delivered")
+				}
+			} else {
+				// which message is it? if it is a later one and everything skipped is empty, the
+				// empty messages in between were lost (the signature of finding C20-E1)
+				q := p
+				for q < len(enq[id]) && len(enq[id][q]) == 0 {
+					q++
+				}
+				if q > p && q < len(enq[id]) && bytes.Equal(enq[id][q], msg) {
+					o.Viol("mconn-empty-message-lost", fmt.Sprintf("%s: ch=%d delivered message #%d (%d bytes) while the %d zero-length message(s) #%d..#%d accepted before it on that channel were never transmitted",
+						input(), id, q, len(msg), q-p, p, q-1))
+					p = q
+				} else {
+					o.Viol("mconn-delivery-mismatch", fmt.Sprintf("%s ch=%d delivered %d bytes, not the next message sent (#%d)", input(), id, len(msg), p))
+					stopped = true // the bookkeeping of this case is void from here on
+				}
 			}
 			next[id] = p + 1
 		}
 		return true
 	}
 
+	enqueue := func(s vfChanSpec, m []byte) bool {
+		ch := snd.channelsIdx[s.id]
+		if !ch.trySendBytes(m) {
+			return false
+		}
+		enq[s.id] = append(enq[s.id], m)
+		trace = append(trace, fmt.Sprintf("enq%d:%s", s.id, vfMsgTxt(m)))
+		o.Op(model, fmt.Sprintf("enq %d %s", s.id, vfHex(m)), fmt.Sprintf("ok q=%d", len(ch.sendQueue)))
+		if len(m) == 0 {
+			if m == nil {
+				o.Stat("mconn.empty-sent.nil")
+			} else {
+				o.Stat("mconn.empty-sent.slice")
+			}
+			if nch > 1 {
+				o.Stat("mconn.empty-sent.multichannel")
+			}
+		}
+		return true
+	}
+	emptyMsg := func() []byte { // Send(nil) and Send([]byte{}) are both the empty message
+		if r.Bool() {
+			return nil
+		}
+		return []byte{}
+	}
+	mkMsg := func(s vfChanSpec) []byte {
+		if emptyHeavy {
+			switch r.Intn(4) {
+			case 0, 1:
+				return emptyMsg()
+			case 2:
+				return r.Bytes(1 + r.Intn(kmathMin(s.cap, 3)))
+			}
+		}
+		n := vfMsgSize(r, maxP, s.cap, allowOver)
+		if n == 0 {
+			return emptyMsg()
+		}
+		return r.Bytes(n)
+	}
+
 	nops := 4 + r.Intn(40)
 	for op := 0; op < nops && !stopped; op++ {
-		switch r.Intn(10) {
-		case 0, 1, 2, 3:
+		switch k := r.Intn(12); {
+		case k < 4:
 			s := specs[r.Intn(len(specs))]
-			m := r.Bytes(vfMsgSize(r, maxP, s.cap, allowOver))
-			ch := snd.channelsIdx[s.id]
-			if !ch.trySendBytes(m) {
-				continue
+			enqueue(s, mkMsg(s))
+		case k == 4 && (emptyHeavy || r.Chance(25)):
+			// a burst: 2..4 empty messages in a row on one channel, or one on each of several channels
+			if r.Bool() {
+				s := specs[r.Intn(len(specs))]
+				for n := 2 + r.Intn(3); n > 0; n-- {
+					enqueue(s, emptyMsg())
+				}
+				o.Stat("mconn.empty-burst.one-channel")
+			} else {
+				for _, s := range specs {
+					if r.Chance(70) {
+						enqueue(s, emptyMsg())
+					}
+				}
+				o.Stat("mconn.empty-burst.across-channels")
 			}
-			enq[s.id] = append(enq[s.id], m)
-			o.Op(model, fmt.Sprintf("enq %d %s", s.id, vfHex(m)), fmt.Sprintf("ok q=%d", len(ch.sendQueue)))
-			if len(m) == 0 {
-				o.Stat("mconn.empty-sent")
-			}
-		case 4:
+		case k == 4 || k == 5:
 			s := specs[r.Intn(len(specs))]
 			sc, rc := snd.channelsIdx[s.id], rcv.channelsIdx[s.id]
-			o.Op(model, fmt.Sprintf("status %d", s.id), fmt.Sprintf("sending=%d queue=%d recving=%d delivered=%d",
-				len(sc.sending), len(sc.sendQueue), len(rc.recving), dcount[s.id]))
-		case 5:
+			sending := "nil"
+			if sc.sending != nil {
+				sending = fmt.Sprint(len(sc.sending))
+			}
+			o.Op(model, fmt.Sprintf("status %d", s.id), fmt.Sprintf("sending=%s queue=%d recving=%d delivered=%d",
+				sending, len(sc.sendQueue), len(rc.recving), dcount[s.id]))
+		case k == 6:
 			snd.channels[r.Intn(len(snd.channels))].updateStats()
+		case k == 7:
+			// steer the real scheduler: recentlySent is only its fairness statistic, any value is
+			// legitimate; this makes every pick order among the pending channels reachable
+			for _, ch := range snd.channels {
+				if r.Bool() {
+					atomic.StoreInt64(&ch.recentlySent, int64(r.Pick(0, 0, 1, 50, 1000, 100000)))
+				}
+			}
+			o.Stat("mconn.scheduler-steered")
+		case k == 8:
+			// isSendPending called directly (with its dequeue side effect) on one channel
+			s := specs[r.Intn(len(specs))]
+			pend := "0"
+			if snd.channelsIdx[s.id].isSendPending() {
+				pend = "1"
+			}
+			trace = append(trace, fmt.Sprintf("pend%d", s.id))
+			o.Op(model, fmt.Sprintf("pending %d", s.id), pend)
 		default:
 			sendOne()
 		}
@@ -550,22 +671,44 @@ func vfMConnCase(o *vfOut, r *vfRand) {
 		}
 	}
 	if !stopped {
+		// the sender reported "nothing to send": everything accepted must have been delivered
 		for _, s := range specs {
 			p := next[s.id]
-			for p < len(enq[s.id]) && len(enq[s.id][p]) == 0 {
-				p++
-				lostEmpty++
+			if p == len(enq[s.id]) {
+				continue
 			}
-			if p != len(enq[s.id]) {
-				o.Viol("mconn-message-not-delivered", fmt.Sprintf("%s ch=%d delivered %d of %d although the sender is idle", key, s.id, p, len(enq[s.id])))
+			onlyEmpty := true
+			for _, m := range enq[s.id][p:] {
+				if len(m) != 0 {
+					onlyEmpty = false
+				}
+			}
+			if onlyEmpty {
+				o.Viol("mconn-empty-message-lost", fmt.Sprintf("%s: ch=%d the %d zero-length message(s) #%d..#%d accepted by the send queue were never transmitted although the sender is idle",
+					input(), s.id, len(enq[s.id])-p, p, len(enq[s.id])-1))
+			} else {
+				o.Viol("mconn-message-not-delivered", fmt.Sprintf("%s ch=%d delivered %d of %d although the sender is idle", input(), s.id, p, len(enq[s.id])))
+			}
+		}
+		for _, s := range specs {
+			sc := snd.channelsIdx[s.id]
+			if sc.sending != nil || len(sc.sendQueue) != 0 || sc.loadSendQueueSize() != 0 {
+				o.Viol("mconn-idle-sender-not-drained", fmt.Sprintf("%s ch=%d idle sender: sending nil=%v queue=%d sendQueueSize=%d", input(), s.id, sc.sending == nil, len(sc.sendQueue), sc.loadSendQueueSize()))
 			}
 		}
 	}
-	if lostEmpty > 0 {
-		o.Viol("mconn-empty-message-lost", fmt.Sprintf("%s: %d zero-length message(s) accepted by the send queue were never transmitted", key, lostEmpty))
-	}
 	_ = oversize
+	if emptyHeavy {
+		o.Stat("mconn.case.empty-heavy")
+	}
 	o.Case(key+fmt.Sprint(delivered, nops), delivered > 0)
+}
+
+func kmathMin(a, b int) int {
+	if a < b {
+		return a
+	}
+	return b
 }
 
 // receiver only: arbitrary packet streams around the capacity boundary
@@ -967,6 +1110,7 @@ func vfMConnE2E(o *vfOut, r *vfRand) {
 	}()
 
 	sent := map[byte][][]byte{}
+	withEmpty, nEmpty := r.Chance(35), 0
 	overCh, overIdx := byte(0), -1
 	if withOver {
 		overCh, overIdx = byte(1+r.Intn(nch)), r.Intn(nmsg)
@@ -980,6 +1124,15 @@ func vfMConnE2E(o *vfOut, r *vfRand) {
 			}
 			if id == overCh && k == overIdx {
 				sz = caps[id] + 1 + r.Intn(2*maxP)
+			} else if withEmpty && r.Chance(40) {
+				// a zero-length message (Send(nil) or Send([]byte{})): must arrive as an empty message
+				var m []byte
+				if r.Bool() {
+					m = []byte{}
+				}
+				sent[id] = append(sent[id], m)
+				nEmpty++
+				continue
 			}
 			m := r.Bytes(sz)
 			m[0] = byte(k)
@@ -1026,7 +1179,11 @@ func vfMConnE2E(o *vfOut, r *vfRand) {
 		for id, msgs := range sent {
 			if len(got[id]) != len(msgs) {
 				vfBroken++
-				o.Viol("mconn-e2e-count", fmt.Sprintf("%s ch=%d delivered %d of %d", key, id, len(got[id]), len(msgs)))
+				lens := []string{}
+				for _, m := range msgs {
+					lens = append(lens, fmt.Sprint(len(m)))
+				}
+				o.Viol("mconn-e2e-count", fmt.Sprintf("%s ch=%d delivered %d of %d (sizes sent on it: %s; %d zero-length message(s) in the case)", key, id, len(got[id]), len(msgs), strings.Join(lens, ","), nEmpty))
 				continue
 			}
 			for k := range msgs {
@@ -1037,6 +1194,9 @@ func vfMConnE2E(o *vfOut, r *vfRand) {
 			}
 		}
 		o.Stat("mconn-e2e.clean")
+		if nEmpty > 0 {
+			o.Stat("mconn-e2e.with-empty-messages")
+		}
 	} else {
 		select {
 		case <-errB:
@@ -1249,34 +1409,105 @@ func vfHandshakeAttacks(o *vfOut, r *vfRand) {
 
 // ---------------------------------------------------------------- deterministic probes
 
-// the zero-length message that loses the scheduling round (finding; see notes/C20.md)
+// the zero-length message that loses the scheduling round (finding C20-E1, fixed; see
+// notes/C20.md): deterministic regression probes.  Each probe is a concrete input: messages per
+// channel (nil / []byte{} / one byte), all enqueued before the first sendPacketMsg; the sender is
+// run until it reports "nothing to send" and the packets are fed to a receiver.  Every accepted
+// message – the empty ones too – must be delivered, once, in order.
 func vfEmptyProbe(o *vfOut) {
-	descs := []*ChannelDescriptor{{ID: 0, Priority: 1, SendQueueCapacity: 4, RecvMessageCapacity: 100},
-		{ID: 1, Priority: 1, SendQueueCapacity: 4, RecvMessageCapacity: 100}}
-	snd, sw := vfMkMConn(descs, 1024)
-	defer snd.flushTimer.Stop()
-	okE := snd.channelsIdx[1].trySendBytes([]byte{})
-	okX := snd.channelsIdx[0].trySendBytes([]byte{7})
-	pk := 0
-	for k := 0; k < 5; k++ {
-		if snd.sendPacketMsg() {
-			break
+	type pm struct {
+		ch byte
+		m  []byte
+	}
+	probes := [][]pm{
+		{{1, []byte{}}, {0, []byte{7}}},                               // the witness of C20-E1
+		{{1, nil}, {0, []byte{7}}},                                    // same with Send(nil)
+		{{0, []byte{}}, {1, []byte{7}}},                               // other channel order
+		{{1, []byte{}}, {1, nil}, {1, []byte{}}, {0, []byte{7}}},      // several in a row
+		{{1, nil}, {1, []byte{9}}, {1, []byte{}}, {0, []byte{7}}, {0, nil}, {0, []byte{8}}}, // mixed on both
+		{{0, nil}, {1, []byte{}}, {2, nil}},                           // only empty messages, three channels
+		{{2, []byte{}}, {0, []byte{1, 2, 3}}, {1, []byte{4}}, {2, []byte{5}}, {2, nil}},
+	}
+	for pi, probe := range probes {
+		descs := []*ChannelDescriptor{{ID: 0, Priority: 1, SendQueueCapacity: 8, RecvMessageCapacity: 100},
+			{ID: 1, Priority: 1, SendQueueCapacity: 8, RecvMessageCapacity: 100},
+			{ID: 2, Priority: 5, SendQueueCapacity: 8, RecvMessageCapacity: 100}}
+		snd, sw := vfMkMConn(descs, 2)
+		rcv, _ := vfMkMConn(descs, 2)
+		sent := map[byte][][]byte{}
+		var in []string
+		accepted := true
+		for _, x := range probe {
+			accepted = accepted && snd.channelsIdx[x.ch].trySendBytes(x.m)
+			sent[x.ch] = append(sent[x.ch], x.m)
+			in = append(in, fmt.Sprintf("enq%d:%s", x.ch, vfMsgTxt(x.m)))
 		}
-		pk++
-	}
-	snd.bufConnWriter.Flush()
-	n := 0
-	for len(sw.w.b) > 0 {
-		var pkt kp2p.Packet
-		if protoio.NewDelimitedReader(&sw.w, 1<<20).ReadMsg(&pkt) != nil {
-			break
+		exhausted := false
+		for k := 0; k < 100 && !exhausted; k++ {
+			exhausted = snd.sendPacketMsg()
 		}
-		n++
+		snd.bufConnWriter.Flush()
+		got := map[byte][][]byte{}
+		npk, bad := 0, ""
+		for len(sw.w.b) > 0 && bad == "" {
+			var pkt kp2p.Packet
+			if err := protoio.NewDelimitedReader(&sw.w, 1<<20).ReadMsg(&pkt); err != nil || pkt.GetPacketMsg() == nil {
+				bad = fmt.Sprintf("unreadable packet: %v", err)
+				break
+			}
+			npk++
+			p := pkt.GetPacketMsg()
+			msg, err := rcv.channelsIdx[byte(p.ChannelID)].recvPacketMsg(*p)
+			if err != nil {
+				bad = "receive error: " + err.Error()
+			} else if msg != nil {
+				got[byte(p.ChannelID)] = append(got[byte(p.ChannelID)], append([]byte{}, msg...))
+			}
+		}
+		snd.flushTimer.Stop()
+		rcv.flushTimer.Stop()
+		input := fmt.Sprintf("probe %d: max=2, channels 0,1 (priority 1), 2 (priority 5), input [%s] then sendPacketMsg until exhausted", pi, strings.Join(in, " "))
+		if !accepted || !exhausted || bad != "" {
+			o.Viol("mconn-probe-failed", fmt.Sprintf("%s: accepted=%v exhausted=%v %s", input, accepted, exhausted, bad))
+			continue
+		}
+		for ch := byte(0); ch < 3; ch++ {
+			msgs := sent[ch]
+			ok := len(got[ch]) == len(msgs)
+			for k := 0; ok && k < len(msgs); k++ {
+				ok = bytes.Equal(msgs[k], got[ch][k])
+			}
+			if ok {
+				continue
+			}
+			// classify: do the delivered messages equal the sent ones with empty messages removed?
+			var nonEmpty [][]byte
+			for _, m := range msgs {
+				if len(m) != 0 {
+					nonEmpty = append(nonEmpty, m)
+				}
+			}
+			sub := len(got[ch]) < len(msgs) && len(got[ch]) >= len(nonEmpty)
+			if sub { // got = sent minus some empty messages, in order
+				i := 0
+				for _, m := range msgs {
+					if i < len(got[ch]) && bytes.Equal(m, got[ch][i]) {
+						i++
+					} else if len(m) != 0 {
+						sub = false
+					}
+				}
+				sub = sub && i == len(got[ch])
+			}
+			if sub {
+				o.Viol("mconn-empty-message-lost", fmt.Sprintf("%s: ch=%d %d of %d accepted messages delivered (%d packet(s) on the wire in total): %d zero-length message(s) were never transmitted; sender idle, sendQueueSize(ch%d)=%d",
+					input, ch, len(got[ch]), len(msgs), npk, len(msgs)-len(got[ch]), ch, snd.channelsIdx[ch].loadSendQueueSize()))
+			} else {
+				o.Viol("mconn-delivery-mismatch", fmt.Sprintf("%s: ch=%d delivered %d message(s), sent %d, not the same sequence", input, ch, len(got[ch]), len(msgs)))
+			}
+		}
+		o.Stat("probe.empty")
 	}
-	if okE && okX && n == 1 {
-		o.Viol("mconn-empty-message-lost", fmt.Sprintf("probe: empty message on ch 1 + 1-byte message on ch 0: %d packet(s) on the wire, sender idle, sendQueueSize(ch1)=%d", n, snd.channelsIdx[1].loadSendQueueSize()))
-	}
-	o.Stat("probe.empty")
 }
 
 func TestVerifC20(t *testing.T) {
